@@ -21,6 +21,27 @@
 #include "version.h"
 #include "utlist.h"
 
+#ifdef OVNI_VERIF
+/* Verification hook: let the event buffer capacity be lowered through the
+ * environment (OVNI_VERIF_EVBUF, bytes) so that every alignment of the
+ * buffer-full boundary can be enumerated. Without the variable the
+ * capacity is the regular OVNI_MAX_EV_BUF. */
+static const long long verif_evbuf_default = OVNI_MAX_EV_BUF;
+static long long
+verif_evbuf(void)
+{
+	static long long cap = 0;
+	if (cap == 0) {
+		const char *e = getenv("OVNI_VERIF_EVBUF");
+		long long v = e ? atoll(e) : 0;
+		cap = (v >= 64 && v <= verif_evbuf_default) ? v : verif_evbuf_default;
+	}
+	return cap;
+}
+#undef OVNI_MAX_EV_BUF
+#define OVNI_MAX_EV_BUF verif_evbuf()
+#endif
+
 enum {
 	ST_UNINIT = 0,
 	ST_INIT,
